@@ -1,6 +1,7 @@
 """C04 - recording is transparent to the recorded service."""
 from lib import recdsl as rd
 from props.rec_common import *  # noqa: F401,F403
+from props import race_common as rc
 
 ID = "C04"
 RUN_MODULE = "RunC04"
@@ -10,18 +11,92 @@ RULE = ("one case = a history of 1-2 recorded operations on one real TapeRecorde
         "output data handlers; a data handler that discards; unserializable values so that copy and save fail; failing or "
         "junk metadata extractors; storage failing on save; discard / forced sampling / enable / disable from the operation "
         "and from intercepted bodies; sampling rates); non-trivial = at least one interception; distinct = distinct history")
-ASSUMPTIONS = ["single-threaded operations: interleavings of worker threads inside an operation are not modelled "
-               "(bytecode-level preemption is runtime behaviour no Gallina function exhibits)",
+ASSUMPTIONS = ["threads: the recorder methods that touch the active recording are modelled as sequences of accesses to the "
+               "three shared fields (Recorder/Threads.v), preemption possible between any two accesses, any number of "
+               "threads, any schedule; a region under self._finalization_lock counts as one step (static gate on the "
+               "source); preemption INSIDE a single attribute access or inside the cassette is not modelled; the "
+               "program-level theorems (rec_exec) are about one thread",
                "object identity of returned values is checked by the harness only (values are immutable trees in the model)"]
 TRUSTED = ["harness-side undecorated twin interpreter (lib/recdsl.twin_run) used by the direct predicate"]
-THEOREMS = ["C04_recording_transparent", "C04_operation_transparent", "C04_disabled_passthrough"]
+THEOREMS = ["C04_recording_transparent", "C04_operation_transparent", "C04_disabled_passthrough",
+            "C04_no_leak_under_any_interleaving", "C04_legacy_refuted"]
 
 W = dict(rd.DEFAULT_W, fault=0.3, unser=0.08, handler=0.4, discard=0.9, force=0.6, enable=0.5, prep_discards=0.12,
          interrupt=0.08, raise_=0.25, playdata=0.2)
 
 
+SHARED_FIELDS = ("_active_recording", "_active_recording_parameters", "_force_sample")
+
+
+def static_gate(repo):
+    """The racing-threads model treats a region under self._finalization_lock as ONE atomic step and assumes that, once a
+    recording is active, the three shared fields are written only inside such regions.  That reduction is not something
+    the run-time comparison can see, so it is checked on the source (ast): every assignment to the three fields lies in
+    __init__, in start_recording (activation, before the body runs), inside a `with self._finalization_lock` block, or in
+    _reset_active_recording - which in turn is only called inside such a block.  Only applies to the repaired code (the
+    lock exists); the legacy code is modelled access by access."""
+    import ast
+    import os
+    src = open(os.path.join(repo, "playback", "tape_recorder.py")).read()
+    tree = ast.parse(src)
+    cls = [n for n in tree.body if isinstance(n, ast.ClassDef) and n.name == "TapeRecorder"]
+    if not cls:
+        return ["class TapeRecorder not found in playback/tape_recorder.py"]
+    if "_finalization_lock" not in src:
+        return []
+    errs = []
+
+    def is_lock_with(node):
+        return isinstance(node, ast.With) and any(
+            isinstance(it.context_expr, ast.Attribute) and it.context_expr.attr == "_finalization_lock"
+            for it in node.items)
+
+    def walk(node, fn, locked):
+        for ch in ast.iter_child_nodes(node):
+            lk = locked or is_lock_with(node)
+            if isinstance(ch, (ast.Assign, ast.AugAssign, ast.AnnAssign)):
+                targets = ch.targets if isinstance(ch, ast.Assign) else [ch.target]
+                for t in targets:
+                    for sub in ast.walk(t):
+                        if isinstance(sub, ast.Attribute) and sub.attr in SHARED_FIELDS and isinstance(sub.ctx, ast.Store):
+                            if fn not in ("__init__", "start_recording", "_reset_active_recording") and not lk:
+                                errs.append("%s written outside the lock in %s (line %d)" % (sub.attr, fn, ch.lineno))
+            if isinstance(ch, ast.Call) and isinstance(ch.func, ast.Attribute) and ch.func.attr == "_reset_active_recording":
+                if not lk:
+                    errs.append("_reset_active_recording called outside the lock in %s (line %d)" % (fn, ch.lineno))
+            walk(ch, fn, lk)
+
+    for fnode in cls[0].body:
+        if isinstance(fnode, (ast.FunctionDef, ast.AsyncFunctionDef)):
+            walk(fnode, fnode.name, False)
+            if fnode.name == "start_recording":
+                # activation only: the writes in start_recording must precede the yield
+                ylines = [n.lineno for n in ast.walk(fnode) if isinstance(n, (ast.Yield, ast.YieldFrom))]
+                for n in ast.walk(fnode):
+                    if isinstance(n, ast.Attribute) and n.attr in SHARED_FIELDS and isinstance(n.ctx, ast.Store) and \
+                            ylines and n.lineno > min(ylines):
+                        errs.append("%s written after the body ran in start_recording outside the lock (line %d)" %
+                                    (n.attr, n.lineno))
+    return ["static gate (atomic-region reduction of Recorder/Threads.v): " + e for e in errs]
+
+
+def to_gallina(case, obs):
+    if rc.is_race(case):
+        return rc.to_gallina(case, obs)
+    from props import rec_common
+    t = rec_common.to_gallina(case, obs)
+    return None if t is None else "H (%s)" % t
+
+
+def explain(case, obs):
+    if rc.is_race(case):
+        return rc.explain(case, obs)
+    from props import rec_common
+    return "explain_case (%s)" % rec_common.to_gallina(case, obs)
+
+
 def generate(rng, tier):
-    cases = []
+    cases = rc.race_cases(rng, tier)
     n = 260 if tier == "quick" else 4000
     for i in range(n):
         runs = []
@@ -36,6 +111,8 @@ def generate(rng, tier):
 def direct(case, obs):
     if "driver_exception" in obs:
         return [("driver", obs["driver_exception"] + obs.get("trace", "")[-400:])]
+    if rc.is_race(case):
+        return rc.direct_leaks(case, obs)
     fails = []
     for i, (run, ob) in enumerate(zip(case["runs"], obs["runs"])):
         if run["kind"] != "record":
@@ -54,6 +131,27 @@ def direct(case, obs):
     return fails
 
 
+_hist_features, _hist_nontrivial = features, nontrivial     # (from rec_common)
+
+
+def features(case):      # noqa: F811
+    if rc.is_race(case):
+        return rc.features(case)
+    return _hist_features(case)
+
+
+def nontrivial(case):    # noqa: F811
+    return True if case.get("kind") == "race" else _hist_nontrivial(case)
+
+
+def shrink_candidates(case):     # noqa: F811
+    if case.get("kind") == "race":
+        return
+    from props import rec_common
+    for c in rec_common.shrink_candidates(case):
+        yield c
+
+
 MANIFEST = dict(
     design_ref="6/C04",
     text="Coq theorems by structural induction over an inductive program syntax (inputs, outputs, nesting, try/except, "
@@ -65,9 +163,21 @@ MANIFEST = dict(
          "(rec_exec/record_run, hand-written from tape_recorder.py) is tied to /repo on every run by executing random "
          "fault-laden programs on a real TapeRecorder built from the same DSL terms and comparing outcome + trace with "
          "vm_compute; the direct predicate compares the real run with a harness-side undecorated twin (outcome, exactly-once "
-         "trace, object identity, cassette untouched when disabled).",
-    note="Partial: thread interleavings inside an operation are not modelled (single-threaded programs only); the "
-         "harness-side twin and identity check are trusted. Trusted: Coq kernel + vm_compute, hand-written model, "
-         "correspondence harness (recorder_driver.py builds real decorated classes).",
-    technique="Coq proof (structural induction over program syntax, all recorder states) + differential correspondence "
-              "by vm_compute + undecorated-twin differential run")
+         "trace, object identity, cassette untouched when disabled). Racing threads: a second model (Recorder/Threads.v) of the "
+         "recorder methods that touch the active recording as sequences of accesses to the shared fields, run by any number "
+         "of threads under any schedule; Owicki-Gries invariants (finite checks by vm_compute lifted by forallb_forall, then "
+         "induction over the schedule) prove that in the repaired code no method ever fails on a vanished recording and the "
+         "fields stay consistent (C04_no_leak_under_any_interleaving), and exhibit the failing schedules of the code before "
+         "/repo 359c201 (C04_legacy_refuted). Tied to /repo by preempting the REAL methods deterministically before every "
+         "shared access (race_driver.py: 2 threads exhaustively, 3 threads nested; 350 + up to 11k cases) and comparing "
+         "leaked exceptions, field values and hand-overs; a static ast gate checks that the fields are written only under "
+         "the lock.",
+    note="Partial: threads are modelled at the granularity of accesses to the recorder's three shared fields; preemption "
+         "inside the cassette, inside a recording object or inside CPython itself is runtime behaviour the model does not "
+         "exhibit, and the program-level theorems are about one thread. A region under self._finalization_lock is one "
+         "model step (trusted reduction, source-gated). The harness-side twin and identity check are trusted. Trusted: Coq "
+         "kernel + vm_compute, hand-written models, correspondence harness (recorder_driver.py builds real decorated "
+         "classes; race_driver.py turns the shared fields into properties).",
+    technique="Coq proof (structural induction over program syntax, all recorder states; Owicki-Gries invariant over all "
+              "schedules for racing threads) + differential correspondence by vm_compute + undecorated-twin differential "
+              "run + deterministic preemption of the real methods")
